@@ -308,7 +308,7 @@ def negative_control(ev, scen_keys, salt, skip_fields=()):
 # --------------------------------------------------------------------------
 # TLC
 # --------------------------------------------------------------------------
-MISMATCH_RE = re.compile(r'^<<"MISMATCH", (\d+), "([^"]*)", \{(.*)\}>>$')
+MISMATCH_RE = re.compile(r'<<\s*"MISMATCH",\s*(\d+),\s*"([^"]*)",\s*\{([^}]*)\}\s*>>', re.S)
 
 
 TLA_CP = "/opt/veriftools/tla/tla2tools.jar:/opt/veriftools/tla/CommunityModules-deps.jar"
@@ -362,11 +362,9 @@ def validate_shards(shard_paths, workdir, trace_spec="Trace", xmx="3g"):
             out = open(logp).read()
             shutil.rmtree(meta, ignore_errors=True)
             mism = []
-            for line in out.split("\n"):
-                m = MISMATCH_RE.match(line.strip())
-                if m:
-                    fields = [x.strip().strip('"') for x in m.group(3).split(",") if x.strip()]
-                    mism.append((int(m.group(1)), m.group(2), fields))
+            for m in MISMATCH_RE.finditer(out):   # TLC wraps long tuples over several lines
+                fields = [x.strip().strip('"') for x in m.group(3).split(",") if x.strip()]
+                mism.append((int(m.group(1)), m.group(2), fields))
             nlines = count_lines(p)
             st = parse_tlc_stats(out)
             ok = "Model checking completed. No error has been found." in out
